@@ -3,6 +3,7 @@ package sim
 import (
 	"encoding/json"
 	"fmt"
+	"net/url"
 
 	"github.com/google/jsonschema-go/jsonschema"
 	"verif.local/simrt"
@@ -74,19 +75,44 @@ func verdict(err error) string {
 func driveC14(c *Ctx) {
 	draft7 := c.W(5) == 0
 	var uni *Universe
+	var dyn *dynWorld
 	var doc map[string]any
-	if c.W(4) == 0 {
+	var text string
+	var insts []any
+	switch c.W(8) {
+	case 0, 1:
 		uni = GenUniverse(c, UniOpts{Draft7: draft7})
 		doc = uni.Docs[0].Body
-	} else {
+		text = JSON(doc)
+		for _, p := range uni.Probes(c, 2) {
+			insts = append(insts, p.Instance(p.Target.Marker), p.Instance("ZZ"))
+			if len(insts) >= 6 {
+				break
+			}
+		}
+		c.Probe("world:universe")
+	case 2:
+		dyn = genDynWorldOpt(c, true)
+		text = dyn.RootDoc
+		for _, call := range dyn.history(c) {
+			insts = append(insts, call.Inst)
+			if len(insts) >= 6 {
+				break
+			}
+		}
+		c.Probe("world:dynamic-scope")
+	default:
 		doc = GenSchemaDoc(c, draft7)
+		text = JSON(doc)
+		n := 2 + c.W(4)
+		for i := 0; i < n; i++ {
+			insts = append(insts, GenInstanceFor(c, doc, 3))
+		}
+		c.Probe("world:keyword-rich")
 	}
-	text := JSON(doc)
 	c.In("schema %s", text)
-	ninst := 2 + c.W(4)
-	insts := make([]any, ninst)
+	ninst := len(insts)
 	for i := range insts {
-		insts[i] = GenInstanceFor(c, doc, 3)
 		c.In("inst%d %s", i, JSON(insts[i]))
 	}
 	nops := 4 + c.W(9)
@@ -138,9 +164,16 @@ func driveC14(c *Ctx) {
 				var res *jsonschema.Resolved
 				var err error
 				opts := &jsonschema.ResolveOptions{}
+				var calls []string // the sequence of loader requests is an observable effect of Resolve
 				if uni != nil {
-					opts.BaseURI = uni.Docs[0].URI
-					opts.Loader = uni.Loader(c, nil)
+					opts.BaseURI = uni.BaseURI
+					inner := uni.Loader(c, nil)
+					opts.Loader = func(u *url.URL) (*jsonschema.Schema, error) { calls = append(calls, u.String()); return inner(u) }
+				}
+				if dyn != nil {
+					opts.BaseURI = dynRootURI
+					inner := dyn.loader()
+					opts.Loader = func(u *url.URL) (*jsonschema.Schema, error) { calls = append(calls, u.String()); return inner(u) }
 				}
 				r := Op(func() { res, err = schema.Resolve(opts) })
 				c.CheckOp("Resolve", r)
@@ -151,6 +184,9 @@ func driveC14(c *Ctx) {
 				} else {
 					d = "ok"
 					rs = append(rs, res)
+				}
+				if len(calls) > 0 {
+					d += fmt.Sprintf(" loader requests %v", calls)
 				}
 				sig = "resolve"
 			case 1:
@@ -192,7 +228,11 @@ func driveC14(c *Ctx) {
 				}
 				sig = "marshal"
 			}
-			if fpn := Fingerprint(&schema); fpn != schemaFP {
+			// the tree is fingerprinted after every call under the first two schedules and
+			// at the end of each later pass (a mutation does not depend on the schedule)
+			if si >= 2 && oi != len(ops)-1 {
+				// skip
+			} else if fpn := Fingerprint(&schema); fpn != schemaFP {
 				c.Fail("C14/purity-schema", op.String()[:7], "schedule %d (%s) op %d %s modified the caller's schema tree", si, sch, oi, op)
 				schemaFP = fpn
 			}
